@@ -22,3 +22,10 @@ claim("C13", "proof", "interprocedural effect/provenance analysis (flow-sensitiv
       "Trusted: library model (NumPy/SymPy/networkx calls do not mutate arguments except a listed set; deepcopy shares nothing mutable), Python semantics of the subset used. "
       "Observational equality of serialisations is implied by absence of writes, not computed.",
       "DESIGN.md 4.5 EFF, 5/C13")
+
+claim("C12", "proof", "typestate analysis of module-level tables over the grammar-derived listener event language + effect/provenance inventory of process-wide mutable state",
+      "Enumerates every module-level and class-level mutable object of the handwritten package; each is proven constant (never written by any function, via interprocedural effect summaries) or is a table "
+      "for which, on every path of listener events that the grammar allows (including abortion at any event and the nested walk of includes), the first access after a walk starts is a clear. "
+      "Also proves no process-wide object is stored into programs/listeners or returned. Obligations = (event, table) pairs + inventory entries + store sites; all discharged.",
+      "Trusted: ParseTreeWalker event order; generated prediction caches are transparent; warnings registry affects only warnings.",
+      "DESIGN.md 4.5 TS/EFF, 5/C12")
